@@ -1706,6 +1706,17 @@ Proof.
   rewrite IH by (intros; apply Hin; cbn; apply in_or_app; right; assumption). reflexivity.
 Qed.
 
+Lemma sm_term_out_unlex m c term : sm_wf m c -> (forall k, In (IL k) term -> In (IL k) (map fst m)) ->
+  sm_term_out m term = Some (unlex (map (mtok m) term)).
+Proof.
+  intros [W1 [W2 W3]]. induction term as [|x r IH]; intro Hin; [reflexivity|].
+  cbn [map]. rewrite unlex_cons. destruct x as [k|].
+  - cbn [sm_term_out]. rewrite IH by (intros; apply Hin; right; assumption).
+    destruct (sm_get m (IL k)) as [v|] eqn:G; [|apply sm_get_none in G; exfalso; apply G, Hin; left; reflexivity].
+    destruct (W2 _ _ (sm_get_in _ _ _ G)) as [i [_ ->]]. cbn [mtok unlex1]. unfold sigma. rewrite G. reflexivity.
+  - cbn [sm_term_out]. rewrite IH by (intros; apply Hin; right; assumption). reflexivity.
+Qed.
+
 Lemma mtok_ok m c x : sm_wf m c -> In x (map fst m) -> tok_ok (mtok m x).
 Proof.
   intros [W1 [W2 W3]] Hin. destruct x as [k|]; [|exact I]. cbn. unfold sigma.
@@ -1980,8 +1991,7 @@ Proof. destruct x; split; reflexivity. Qed.
 
 Theorem inter_matches_numpy ops out nops nout :
   np_parse_inter ops out = Some (nops, nout) ->
-  (match out with Some o => In IE o -> In IE (concat (map snd ops)) | None => True end) ->
-  exists eq, convert_from_interleaved_v true (map snd ops) out = Some eq /\
+  exists eq, convert_from_interleaved_v true true (map snd ops) out = Some eq /\
     let E := model_ellipses_inds eq (map fst ops) in
     let r := rho_args (AInter ops out) E in
     parse_equation_ellipses_v true eq (map fst ops) = Some (map (map r) nops, map r nout).
@@ -1992,36 +2002,33 @@ Proof.
   destruct (np_sublists inputs) as [nts|] eqn:Ens; [|discriminate].
   destruct (np_sublists_spec _ _ Ens) as [-> L].
   (* the effective output sublist and numpy's verdict on it *)
-  intros Hnp HIE.
+  intros Hnp.
   assert (Heff : exists o_eff,
     (match out with Some o => Some o | None => Some (interleaved_sorted_output inputs) end) = Some o_eff /\
-    np_core (map (map nt) inputs) (Some (map nt o_eff)) shapes = Some (nops, nout) /\
-    (In IE o_eff -> In IE (concat inputs))).
+    np_core (map (map nt) inputs) (Some (map nt o_eff)) shapes = Some (nops, nout)).
   { destruct out as [o|].
     - destruct (np_sublist o) as [ot|] eqn:Eo; [|discriminate].
       destruct (np_sublist_spec _ _ Eo) as [-> _]. exists o. auto.
-    - exists (interleaved_sorted_output inputs). split; [reflexivity|]. split.
-      + rewrite (computed_output_is_numpys inputs L). apply np_core_implicit_explicit. exact Hnp.
-      + apply IE_in_computed_output. }
-  destruct Heff as [o_eff [Eeff [Hcore HIE']]]. clear Hnp HIE.
+    - exists (interleaved_sorted_output inputs). split; [reflexivity|].
+      rewrite (computed_output_is_numpys inputs L). apply np_core_implicit_explicit. exact Hnp. }
+  destruct Heff as [o_eff [Eeff Hcore]]. clear Hnp.
   set (sm := get_symbol_map inputs).
   destruct (get_symbol_map_spec inputs) as [c [W K]]. fold sm in W, K.
   (* every label of the output is known to the symbol map, and is below 52 *)
-  assert (Hout : forall x, In x o_eff -> In x (map fst sm) /\ match x with IL k => k < 52 | IE => True end).
-  { intros [k|] Hx.
+  assert (Hout : forall k, In (IL k) o_eff -> In (IL k) (map fst sm) /\ k < 52).
+  { intros k Hx.
     - pose proof (np_core_output_letters _ _ _ _ Hcore (letter k) (in_letters_of_nt o_eff k Hx)) as Hc.
       rewrite letters_of_concat, <- concat_map in Hc.
       destruct (in_letters_nt _ _ Hc) as [k' [E Hk']].
       assert (k' < 52) by (apply L; exact Hk'). apply letter_eq_bounded in E; [|assumption]. subst k'.
-      split; [apply K; exact Hk'|assumption].
-    - split; [apply K, HIE'; exact Hx|exact I]. }
-  assert (Lo : labels_ok o_eff) by (intros k Hk; apply (Hout (IL k) Hk)).
+      split; [apply K; exact Hk'|assumption]. }
+  assert (Lo : labels_ok o_eff) by (intros k Hk; apply (Hout k Hk)).
   (* the equation string the model builds *)
   set (mops := map (map (mtok sm)) inputs). set (mo := map (mtok sm) o_eff).
-  assert (Econv : convert_from_interleaved_v true inputs out = Some (unlex (tjoin mops ++ TArrow :: mo))).
+  assert (Econv : convert_from_interleaved_v true true inputs out = Some (unlex (tjoin mops ++ TArrow :: mo))).
   { unfold convert_from_interleaved_v. fold sm.
     rewrite (sm_terms_unlex sm c inputs W) by (intros x Hx; apply K; exact Hx). fold mops.
-    rewrite Eeff. rewrite (sm_term_unlex sm c o_eff W) by (intros x Hx; apply Hout; exact Hx). fold mo.
+    rewrite Eeff. rewrite (sm_term_out_unlex sm c o_eff W) by (intros k Hx; apply Hout; exact Hx). fold mo.
     rewrite unlex_app, unlex_cons, unlex_tjoin. reflexivity. }
   exists (unlex (tjoin mops ++ TArrow :: mo)). split; [exact Econv|].
   (* token facts *)
@@ -2031,7 +2038,7 @@ Proof.
     apply (mtok_ok sm c x W). apply K. apply in_concat. eauto. }
   assert (Kmo : Forall tok_ok mo /\ forall t, In t mo -> is_arrow t = false).
   { split; [apply Forall_forall|]; intros t Ht; unfold mo in Ht; apply in_map_iff in Ht;
-      destruct Ht as [x [<- Hx]]; [apply (mtok_ok sm c x W), Hout, Hx|apply mtok_not_sep]. }
+      destruct Ht as [x [<- Hx]]; [destruct x as [k|]; [apply (mtok_ok sm c (IL k) W), Hout, Hx|exact I]|apply mtok_not_sep]. }
   assert (Klhs : Forall tok_ok (tjoin mops) /\ Forall lhs_tok (tjoin mops)).
   { clear - Kops. induction mops as [|p [|q r] IH].
     - split; constructor.
@@ -2078,13 +2085,12 @@ Proof.
 Qed.
 
 Theorem inter_agrees_with_numpy fx ops out :
-  fx_inter fx = true -> fx_outell fx = true ->
-  (match out with Some o => In IE o -> In IE (concat (map snd ops)) | None => True end) ->
+  fx_inter fx = true -> fx_outell fx = true -> fx_interout fx = true ->
   agrees_args_v fx (AInter ops out) = match np_parse_inter ops out with Some _ => Some true | None => None end.
 Proof.
-  intros F1 F2 HIE. unfold agrees_args_v. cbn [np_parse_args einsum_eq_v eargs_shapes]. rewrite F1, F2.
+  intros F1 F2 F3. unfold agrees_args_v. cbn [np_parse_args einsum_eq_v eargs_shapes]. rewrite F1, F2, F3.
   destruct (np_parse_inter ops out) as [[nops nout]|] eqn:P; [|reflexivity].
-  destruct (inter_matches_numpy ops out nops nout P HIE) as [eq [E1 E2]]. cbn zeta in E2.
+  destruct (inter_matches_numpy ops out nops nout P) as [eq [E1 E2]]. cbn zeta in E2.
   rewrite E1, E2, ops_eqb_refl. reflexivity.
 Qed.
 
@@ -2132,11 +2138,8 @@ Proof. vm_compute. reflexivity. Qed.
 Lemma sweep_string_fixed :
   forallb (fun c => not_refuted (agrees_args_v all_fixes (sweep_args_str (fst c) (snd c)))) sweep_calls = true.
 Proof. vm_compute. reflexivity. Qed.
-(* (interleaved calls whose ONLY ellipsis is in the output sublist stay refuted: known finding
-   interleaved-output-ellipsis-only, for which no patch is proposed) *)
 Lemma sweep_inter_fixed :
-  forallb (fun c => output_only_ellipsis (fst c) (snd c) ||
-                    not_refuted (agrees_args_v all_fixes (sweep_args_inter (fst c) (snd c)))) sweep_calls = true.
+  forallb (fun c => not_refuted (agrees_args_v all_fixes (sweep_args_inter (fst c) (snd c)))) sweep_calls = true.
 Proof. vm_compute. reflexivity. Qed.
 (* the pinned code, interleaved form with an explicit output sublist *)
 Lemma sweep_inter_explicit_pinned :
@@ -2151,11 +2154,21 @@ Lemma sweep_sizes :
   length (filter (fun c => match np_parse_args (sweep_args_str (fst c) (snd c)) with Some _ => true | None => false end) sweep_calls).
 Proof. vm_compute. split; reflexivity. Qed.
 
-Lemma interleaved_output_ellipsis_only_refuted :
-  exists ops out, agrees_args_v all_fixes (AInter ops out) = Some false /\ np_out_shape (AInter ops out) = Some [3;2]%Z.
-Proof.
-  exists [([2;3]%Z, [IL 0; IL 1])], (Some [IE; IL 1; IL 0]). split; vm_compute; reflexivity.
-Qed.
+(* einsum(x, [0,1], [Ellipsis,1,0]): refuted for the model before the interleaved-output-ellipsis-only
+   repair (KeyError), in agreement with numpy after it *)
+Lemma interleaved_output_ellipsis_only_witness :
+  let a := AInter [([2;3]%Z, [IL 0; IL 1])] (Some [IE; IL 1; IL 0]) in
+  agrees_args_v (mkFx true true true false) a = Some false /\
+  agrees_args_v all_fixes a = Some true /\
+  np_out_shape a = Some [3;2]%Z /\ front_out_shape_v all_fixes a = Some [3;2]%Z.
+Proof. vm_compute. auto. Qed.
+
+(* the class as a whole: an output sublist with an Ellipsis that no input sublist carries *)
+Lemma interleaved_output_only_ellipsis_agrees ops o :
+  In IE o -> ~ In IE (concat (map snd ops)) ->
+  agrees_args_v all_fixes (AInter ops (Some o)) =
+  match np_parse_inter ops (Some o) with Some _ => Some true | None => None end.
+Proof. intros _ _. apply inter_agrees_with_numpy; reflexivity. Qed.
 
 (* the witnesses of the refutations are repaired by the proposed fixes *)
 Lemma fixes_repair_witnesses :
